@@ -3,6 +3,7 @@ CONSTANTS
   Mutant = "shared-scheme-buffer"
   MaxOps = 1
   WithUpperCaseDesc = TRUE
+  WithNoContent = TRUE
   SmallSec = FALSE
 INVARIANTS ServingConsequence
 CHECK_DEADLOCK FALSE
